@@ -97,7 +97,7 @@ func checkC11(c *core.Ctx) {
 		"every variant is verified by the reference tokenizer to carry the same tokens; `text conv` must print the same bytes and succeed equally for all members of a class; non-trivial = class with >= 3 distinct texts, one with a comment and one with a Unicode accidental; distinct by base text", nv))
 	c.Assume("grammar.Tokenize (documented tokenisation) decides which spellings are equivalent", "byte equality of stdout")
 
-	c.Stream("class", c.N(1200, 8000), func(i int, r *rand.Rand) {
+	c.Stream("class", c.N(1200, 12000), func(i int, r *rand.Rand) {
 		syllable := i%2 == 0
 		p := model.RandPiece(r, model.GenOpts{MinLen: 1, MaxLen: 8, RestProb: 0.2, SettingProb: 0.15, TextProb: 0.2, KeyChanges: syllable || r.Intn(2) == 0, BassProb: 0.5, MaxDeg: 13, SimpleOnly: true, TextSafe: true})
 		// altered roots so that accidentals occur
